@@ -264,6 +264,34 @@ func scripted(prop string) []script {
 		{Kind: "Cancel", ID: 5, Who: 1},
 		{Kind: "Cancel", ID: 5, Who: 0},
 	}})
+	// (10) lifecycle: the module migration in the middle of a history with a live transfer, a batch whose time-out (1600) the
+	// PROJECTED height (1000 + 10 blocks * 70) has passed while the OBSERVED height (1000) has not, a bridge call; afterwards
+	// ids continue, the creator can cancel, the batch is still there and executable
+	out = append(out, script{[4]uint64{60000, 7000, 100, 3_600_001}, 100000, []Op{
+		{Kind: "Observe", H: 1000},
+		{Kind: "Send", Sender: 0, Dest: 1, Amount: 10, Fee: 5, Token: 0},
+		{Kind: "Send", Sender: 1, Dest: 2, Amount: 11, Fee: 6, Token: 3},
+		{Kind: "RequestBatch", Token: 0, Which: 1, FeeRcv: 0, MinFee: 1, Auth: true},
+		{Kind: "BridgeCall", Sender: 0, Refund: 1, Coins: [][2]int64{{0, 50}}, To: 2, Data: []byte{1}},
+		{Kind: "NextBlock"}, {Kind: "NextBlock"}, {Kind: "NextBlock"}, {Kind: "NextBlock"}, {Kind: "NextBlock"},
+		{Kind: "NextBlock"}, {Kind: "NextBlock"}, {Kind: "NextBlock"}, {Kind: "NextBlock"}, {Kind: "NextBlock"},
+		{Kind: "Migrate"},
+		{Kind: "Send", Sender: 2, Dest: 0, Amount: 12, Fee: 7, Token: 0},
+		{Kind: "Cancel", ID: 2, Who: 1},
+		{Kind: "RequestBatch", Token: 0, Which: 1, FeeRcv: 1, MinFee: 1, Auth: true},
+		{Kind: "BridgeCall", Sender: 1, Refund: 2, Coins: [][2]int64{{0, 5}}, To: 0, Data: []byte{2}},
+		{Kind: "BatchExecuted", Token: 0, Nonce: 1, H: 1001},
+	}})
+	// (11) C05 only (size): 101 outgoing bridge calls of 1 FX each, all timed out by ONE observed event: every one is refunded
+	// once, every record is gone, and the next event refunds nothing
+	if prop == "C05" {
+		bulk := []Op{{Kind: "Observe", H: 1000}}
+		for i := 0; i < 101; i++ {
+			bulk = append(bulk, Op{Kind: "BridgeCall", Sender: i % 3, Refund: (i + 1) % 3, Coins: [][2]int64{{0, 1}}, To: 0})
+		}
+		bulk = append(bulk, Op{Kind: "Observe", H: 1003}, Op{Kind: "Observe", H: 1004}, Op{Kind: "Observe", H: 1005})
+		out = append(out, script{paramSets[2], 100000, bulk})
+	}
 	// (4) more than 100 entries of one token: the batch takes the 100 best, ties by descending id
 	var big []Op
 	big = append(big, Op{Kind: "Observe", H: 77})
